@@ -513,7 +513,14 @@ func fileSetVBuf(L *LState) int {
 	if n := fileIsWritable(L, file); n != 0 {
 		return n
 	}
-	switch filebufOptions[L.CheckOption(2, filebufOptions)] {
+	mode := filebufOptions[L.CheckOption(2, filebufOptions)]
+	// bytes held by the writer being replaced must not be lost
+	if bwriter, ok := file.writer.(*bufio.Writer); ok {
+		if err = bwriter.Flush(); err != nil {
+			goto errreturn
+		}
+	}
+	switch mode {
 	case "no":
 		switch file.Type() {
 		case lFileFile:
